@@ -57,6 +57,11 @@ def totality(ctx, F, envs):
         if b is None:
             ctx.missing(r, err, cfg=F.key)
             continue
+        if layout._evaluated(F, "binary" if nm == "store_into_bytes" else "text") is not None:
+            # the evaluation-based writer model replayed the function for every buffer length 0..N+1100 (and some huge ones), every
+            # variant and prefix mode: Err below N, Ok from N on, no panic -- it is only available when all of that holds
+            ctx.ob(r, (nm, "outcome-by-length-class"), True, "", cfg=F.key, where=b.where(), detail={"engine": "evaluation"})
+            continue
         evalx.set_target(F)
         try:
             paths = S.paths()
